@@ -818,9 +818,10 @@ def run_net(rec):
                 hp = ["k3", "k4"] if rec.get("hporder", "k3k4") == "k3k4" else ["k4", "k3"]
                 vals = {hp[0]: jnp.array(float(rec["hth"][0])), hp[1]: jnp.array(float(rec["hth"][1]))}
                 eqp.update({k: vals[k] for k in sorted(vals)})      # dictionary order k3, k4 - independent of the list order
-                P = len(rec["hyper"][0]["b"])
+                # the hyper-network's layers; the output size written for its LAST layer is a dummy: create_HYPERPINN computes it
+                hl = tuple((eqx.nn.Linear, len(L["W"][0]), (len(L["W"]) if k < len(rec["hyper"]) - 1 else 1000)) for k, L in enumerate(rec["hyper"]))
                 u = jinns.utils.create_HYPERPINN(jax.random.PRNGKey(0), eqx_list, rec["eq_type"], hp, 2, dim_x, input_transform=it,
-                                                 output_transform=ot, shared_pinn_outputs=shared, eqx_list_hyper=((eqx.nn.Linear, 2, P),))
+                                                 output_transform=ot, shared_pinn_outputs=shared, eqx_list_hyper=hl)
                 if shared is not None:
                     u = u[0]
                 nn = _set_linear_ints(u.init_params(), rec["hyper"])
